@@ -171,6 +171,36 @@ theorem merger_self_clear_of_diagonal (c : Cfg) (hself : c.selfComparison = true
     · exact inv.2 t0 h)
   omega
 
+/-- **`merger_output_within_rows`** — under `Pre`, when every hit has `0 ≤ From` and `To ≤ Qlen`
+    (the filter's hits lie inside the query), every returned trapezoid has `0 ≤ Bottom` and
+    `Top ≤ Qlen`: with `merger_output_wellformed` this is the hypothesis `TrapsIn` of the kernel
+    theorems (`kernel_model_hits_under_contract`). -/
+theorem merger_output_within_rows (c : Cfg) (hits : List FHit) (traps : List Trap) (pre : Pre c hits)
+    (hin : ∀ h ∈ hits, 0 ≤ h.from_ ∧ h.to ≤ c.qlen) (hm : merge c hits = some traps) :
+    ∀ t ∈ traps, 0 ≤ t.bottom ∧ t.top ≤ c.qlen := by
+  obtain ⟨s, hs, rfl⟩ := merge_some hm
+  have inv := mergeAll_forall c (fun t => 0 ≤ t.bottom ∧ t.top ≤ c.qlen)
+    (by intro x y hx hy
+        show 0 ≤ (absorb x y).bottom ∧ (absorb x y).top ≤ c.qlen
+        rw [absorb_bottom, absorb_top]; omega)
+    hits St.init s
+    (by intro h hh _
+        have := hin h hh
+        refine ⟨by simp only [fresh]; omega, ?_⟩
+        intro t ht
+        show 0 ≤ (widen c _ _ t).bottom ∧ (widen c _ _ t).top ≤ c.qlen
+        unfold widen; dsimp only
+        refine ⟨ht.1, ?_⟩
+        split <;> omega)
+    (by simp [St.init]) (by simp [St.init]) hs
+  intro t ht
+  unfold finalise at ht
+  rw [mem_sortByBottom, clipping_is_identity_on_valid c hits pre s hs] at ht
+  simp only [List.mem_append, List.mem_reverse] at ht
+  rcases ht with h | h
+  · exact inv.1 t h
+  · exact inv.2 t h
+
 /-- **`merger_total`** — inside the modelled domain (every hit either cut by the self-comparison
     test or with `-Diagonal ≤ Qlen` and `From - bottomPadding ≤ Qlen + 1`, which every hit of
     `filter.Filter` satisfies) the model never answers `none`: the sentinel of the active list
